@@ -10,6 +10,21 @@ CHECKS = {
   ref="DESIGN.md section 5 C06, section 4 (OMap.v, Tx.v)",
   note="Trusted: Coq kernel + vm_compute; the hand model's fidelity to transactions.rs (validated by the correspondence run, not proved); MemoryStorage = BTreeMap semantics; harness and check.py. No axioms (Print Assumptions: Closed under the global context).",
   technique="Coq proof (induction over client programs; refinement to an ordered-map spec) + model-vs-implementation correspondence evaluated by vm_compute"),
+ "C07": dict(
+  text="Coq theorems about a transliteration of prefixed_storage (length_prefixed.rs: 2-byte big-endian length + bytes per segment, panic above 65535; namespace_helpers.rs: get/set/remove_with_prefix, range_with_prefix with its start/end computation, namespace_upper_bound incl. wrap-around, the starts_with filter and trim; mod.rs: mutable and read-only views): the encoding is compositional and prefix-free; starts_with(ns) is exactly the interval [ns, tight bound) and the code's base interval intersected with its filter equals it; get/set/remove/range through a view = the ordered-map operation on the window of the raw store (range: every namespace incl. empty / all-0xFF / 0xFF-ending, every base content, all bounds, both orders, no panic); for EVERY client program (incl. nested transactional blocks) running it through the view equals running it on the window and the complement of the window is untouched; windows of non-comparable paths share no raw key and programs through one leave the other unchanged; an extension path is exactly a sub-window; read-only views reject writes. The model is tied to the code on every run by driving App::prefixed_storage(_mut) / prefixed_multilevel_storage(_mut) and raw App::storage() access on fixed (F1, F12 witnesses), adversarial, exhaustive and generated scripts and judging every answer and every raw dump inside Coq (property oracle first, then model correspondence).",
+  ref="DESIGN.md section 5 C07, section 4 (Prefix.v), section 6 (F1, F12)",
+  note="Trusted: Coq kernel + vm_compute; the hand model's fidelity to prefixed_storage/*.rs (validated by the correspondence run, not proved); MemoryStorage = BTreeMap semantics, slice::starts_with; harness and check.py. No axioms (Print Assumptions: Closed under the global context).",
+  technique="Coq proof (induction over byte strings, sorted lists and client programs; lens law to an ordered-map window spec) + model-vs-implementation correspondence evaluated by vm_compute"),
+ "C09": dict(
+  text="Coq theorems about a transliteration of bank.rs (BankKeeper init_balance/set_balance/get_balance/get_supply/send = burn-then-mint/mint/burn/normalize_amount, the Balance/AllBalances/Supply query arms) and of cw-utils 2.0.0 NativeBalance (normalize, + Coin, - Coin with checked_sub and removal at zero, - Vec<Coin>), with Err where the code returns an error and Panic where Uint128 `+` would overflow: for ALL well-formed ledgers and ALL coin lists (repeated denoms, zeros) a send/burn succeeds iff some amount is positive and no denomination's TOTAL exceeds the sender's balance, moves exactly the totals, changes no other (account, denom), conserves every supply (burn/mint move it by exactly the total), a self-transfer still needs the funds and is the identity, a failed op changes nothing, the three query kinds agree (Balance = entry of AllBalances or 0, AllBalances strictly sorted without zeros, Supply = sum over all stored accounts), after ANY history balance + debits = initial + credits and supply + burned = initial + minted, no panic within the 128-bit range, the model refines the literal ledger spec op by op (contract executions included), and the oracle accepts the model's own run. The model is tied to the code on every run by executing the real App (BankSudo::Mint via sudo, init_balance via builder closure and init_modules, BankMsg::Send/Burn via execute, a forwarding contract emitting BankMsgs with attached funds) on fixed, exhaustive and generated histories, asking all three query kinds for every (account, denom) after every op and decoding the raw bank window of App::storage(); Coq evaluates the property oracle on the implementation's answers first and the model second.",
+  ref="DESIGN.md section 5 C09, section 4 (Bank.v), section 6 (unvalidated recipients), Appendix A (C09); coq/Bank.v, coq/Chk09.v",
+  note="Trusted: Coq kernel + vm_compute; the hand model's fidelity to bank.rs and cw-utils balance.rs (validated by the correspondence run, not proved); cosmwasm-std Uint128/MockApi, cw-storage-plus key layout and serde-JSON values (used by the harness to decode the bank window); harness and check.py. Overflow is excluded by an explicit premise (no_overflow / hist_bounded), as the property's quantifier does; the generator keeps every history below 2^128 per denom. No axioms (Print Assumptions: Closed under the global context).",
+  technique="Coq proof (induction over coin lists, sorted association lists and histories; refinement to a ledger spec on functions) + model-vs-implementation correspondence and property oracle evaluated by vm_compute"),
+ "C18": dict(
+  text="Coq theorems about an executable Gallina model of the three address codecs (MockApiBech32 / MockApiBech32m of api.rs with ANY prefix, and cosmwasm_std's MockApi behind IntoAddr), transliterating bech32 0.11's encode / CheckedHrpstring::new / Hrp::parse / byte_iter / checksum engine. FULLY proved, for all inputs: 8->5->8 bit regrouping is the identity on byte strings of every length; the checksum engine is GF(2)-linear; the appended checksum always verifies (all hrps, all data, both variants); a single-symbol error always changes the residue (syndrome argument: the zero-step has a trivial kernel on 30-bit states); humanize-then-canonicalize returns the original bytes and the address validates unchanged whenever humanize succeeds, with the exact success condition (prefix parses and |p|+7+ceil(8n/5) <= 1023, hence every 1..64-byte string, up to 583 bytes); validate returns its input unchanged and accepts exactly the encodings under that variant and prefix; other prefix / other checksum variant / mixed case are rejected; EVERY single-character substitution of a valid address (every position, every replacement character) is rejected by validate, and addr_canonicalize alone rejects every substitution that is not a mere case change; addr_make on a digest is valid under its own codec and injective in digest and prefix-up-to-case; the same for the default codec; the three Api functions never panic; and the oracle used in the run-time check accepts the model's own answers for all inputs. REFUTED and kept visible: the literal reading 'different prefixes give different addresses' fails for prefixes differing only in case (\"A\"/\"a\"), since an HRP is case-insensitive. NOT modelled: SHA-256 (addr_make takes the digest, the harness computes it with sha2). The bit regrouping is modelled on bit lists, not as the crate's iterator state machines. The model is tied to the code on every run by calling the real Api implementations and helpers (round trips for every length 0..70 and the limit lengths, adversarial strings with correct checksums, foreign encodings, names, and every single-character corruption of sampled valid addresses) and evaluating model and property oracle on the same inputs inside Coq.",
+  ref="DESIGN.md section 5 C18, Appendix A (C18); coq/Bech32.v, coq/Chk18.v",
+  note="Trusted: Coq kernel + vm_compute (finite sweeps over the 32 symbols / 256 byte values, and running the model); the hand model's fidelity to api.rs, bech32 0.11 and cosmwasm-std's MockApi (validated by the correspondence run, not proved); SHA-256 collision-freeness for 'different names'; harness (incl. its independent use of the bech32 and sha2 crates) and check.py. No axioms (Print Assumptions: Closed under the global context).",
+  technique="Coq proof (linear algebra over GF(2) on N bit operations, induction over symbol streams, finite sweeps lifted with forallb_forall) + model-vs-implementation correspondence evaluated by vm_compute"),
 }
 PENDING_REASON = "not claimed yet: model/theorems for this property are still being built (see DESIGN.md); no check is registered, so nothing is asserted about it"
 
